@@ -126,14 +126,35 @@ class DefGen:
             return ["v", i, rng.choice([[["s", "a"]], [["s", "b"], ["i", 1]], [["s", "n"], ["i", 0]]])]
         return ["v", i, [["i", rng.choice([1, 2])]]]
 
+    FLAG_PATHS = {
+        "pair": [[["i", 0]], [["i", 1]], [["i", 0], ["i", 1]], [["i", 1], ["i", 1]], [["i", 0], ["i", 0]]],
+        "trip": [[["i", 0]], [["i", 1]], [["i", 1], ["i", 0]], [["i", 2]], [["i", 2], ["s", "k"]], [["i", -1], ["s", "k"]]],
+        "dict": [[["s", "a"]], [["s", "b"]], [["s", "b"], ["i", 1]], [["s", "n"]], [["s", "n"], ["i", 0]]],
+        "tup3": [[["i", 0]], [["i", 1]], [["i", 2]]],
+        "tup4": [[["i", 0]], [["i", 1]], [["i", 2]]],
+    }
+
     def flag(self):
+        """Flags prefer indexed parts; once a container has served as the source of a flag, later flags of the same
+        definition tend to use OTHER parts of the SAME container (parts of one value with different truthiness: a
+        decision remembered per source node instead of per reference shows only there)."""
         rng = self.rng
+        src = getattr(self, "flag_src", None)
+        if src is not None and rng.random() < 0.5:
+            i, k, used = src
+            p_ = rng.choice([q for q in self.FLAG_PATHS[k] if q != used])
+            self.flag_src = (i, k, p_)
+            return ["v", i, p_]
         r = rng.random()
         if r < 0.2:
             return ["c", rng.choice([True, False, 0, 1, None, "", "x"])]
         if r < 0.6:
-            return self.arg_indexed()
-        return self.arg()[0]
+            a = self.arg_indexed()
+        else:
+            a = self.arg()[0]
+        if a[0] == "v" and a[2] and self.kinds[a[1]] in self.FLAG_PATHS:
+            self.flag_src = (a[1], self.kinds[a[1]], a[2])
+        return a
 
     def stmt(self):
         rng = self.rng
@@ -566,6 +587,52 @@ def directed_modules():
                         ritems = [[None, ["v", first + c, []]] for c in range(k)] + [[None, ["v", first + k, []]]]
                         top = dict(name="main", params=[], body=obody, ret=dict(shape="t", items=ritems), uses_flags=f is not None)
                         yield dict(defs=[inner, top], args=[])
+
+
+def directed_shared_flag_modules():
+    """Two flagged consumers whose flags are DIFFERENT parts of the SAME value (a node result, an unpacked result,
+    a DAG argument), with every combination of truthiness, as plain nodes and as nested-DAG calls.  Which of the two
+    is scheduled first is left to the random configurations (priorities) of the real runs."""
+    inner = dict(name="d0", params=[dict(name="p0")],
+                 body=[dict(k="call", fn="tag2", args=[["v", 0, []], ["c", 1]], kwargs=[], flag=None, unpack=None)],
+                 ret=dict(shape="s", items=[[None, ["v", 1, []]]]), uses_flags=False)
+    for x in (0, 5, None, ""):
+        for srcfn, pa, pb in (("trip", [["i", 0]], [["i", 1]]), ("trip", [["i", 1], ["i", 0]], [["i", 2]]),
+                              ("mkd", [["s", "a"]], [["s", "b"]]), ("mkd", [["s", "n"], ["i", 0]], [["s", "n"]]),
+                              ("pair", [["i", 0], ["i", 1]], [["i", 1]])):
+            for order in (0, 1):
+                p1, p2 = (pa, pb) if order == 0 else (pb, pa)
+                for nested in (False, True):
+                    body = [dict(k="call", fn=srcfn, args=[["v", 0, []]], kwargs=[], flag=None, unpack=None)]
+                    if nested:
+                        body.append(dict(k="dag", callee=0, args=[["c", 10]], flag=["v", 1, p1]))
+                        body.append(dict(k="dag", callee=0, args=[["c", 20]], flag=["v", 1, p2]))
+                        defs = [inner]
+                    else:
+                        body.append(dict(k="call", fn="tag2", args=[["c", 10], ["c", 1]], kwargs=[], flag=["v", 1, p1], unpack=None))
+                        body.append(dict(k="call", fn="tag2", args=[["c", 20], ["c", 1]], kwargs=[], flag=["v", 1, p2], unpack=None))
+                        defs = []
+                    top = dict(name="main", params=[dict(name="p0")], body=body, uses_flags=True,
+                               ret=dict(shape="t", items=[[None, ["v", 2, []]], [None, ["v", 3, []]]]))
+                    yield dict(defs=defs + [top], args=[x])
+    # parts of one DAG argument, and two components of one unpacked result
+    for arg in ((0, 5), (5, 0), [0, 3], {"a": 0, "b": 2}):
+        ks = [[["s", "a"]], [["s", "b"]]] if isinstance(arg, dict) else [[["i", 0]], [["i", 1]]]
+        for p1, p2 in ((ks[0], ks[1]), (ks[1], ks[0])):
+            body = [dict(k="call", fn="tag2", args=[["c", 10], ["c", 1]], kwargs=[], flag=["v", 0, p1], unpack=None),
+                    dict(k="call", fn="tag2", args=[["c", 20], ["c", 1]], kwargs=[], flag=["v", 0, p2], unpack=None)]
+            top = dict(name="main", params=[dict(name="p0")], body=body, uses_flags=True,
+                       ret=dict(shape="t", items=[[None, ["v", 1, []]], [None, ["v", 2, []]]]))
+            yield dict(defs=[top], args=[arg])
+    for x in (0, 5):
+        for a, b in ((1, 2), (2, 1)):
+            # u0, u1 = pair(x) unpacked: u0 = ("L", x), u1 = ("R", x); flags u_[1] (x itself) and u_ (truthy tuple)
+            body = [dict(k="call", fn="pair", args=[["v", 0, []]], kwargs=[], flag=None, unpack=2),
+                    dict(k="call", fn="tag2", args=[["c", 10], ["c", 1]], kwargs=[], flag=["v", a, [["i", 1]]], unpack=None),
+                    dict(k="call", fn="tag2", args=[["c", 20], ["c", 1]], kwargs=[], flag=["v", b, []], unpack=None)]
+            top = dict(name="main", params=[dict(name="p0")], body=body, uses_flags=True,
+                       ret=dict(shape="t", items=[[None, ["v", 3, []]], [None, ["v", 4, []]]]))
+            yield dict(defs=[top], args=[x])
 
 
 def directed_passing_modules():
